@@ -22,6 +22,7 @@
 #include <iostream>
 #include <memory>
 #include <random>
+#include <set>
 #include <sstream>
 #include <csignal>
 #include <unistd.h>
@@ -146,6 +147,7 @@ struct net
     std::vector<std::unique_ptr<ov_val>> values;
     std::vector<var> ov_vars;
     std::vector<std::vector<int>> ov_doms;
+    std::set<var> ov_free; // object variables created without the exactly-one constraint
     bool stable = true;             // the propagation queue is empty and the last propagation succeeded
     bool dead = false;              // a root-level inconsistency was reported: the execution ends
     std::vector<bool> stable_stack; // 'stable' at the moment of each standing assume
@@ -475,7 +477,11 @@ static bool exec_op(const vj::val &op)
             ids.push_back((int)op["vals"][i].i());
             vals.push_back(n.values.at(ids.back()).get());
         }
-        var v = n.ov.new_var(vals);
+        // "free": the variable is created without the built-in exactly-one constraint (as the planner creates its enums)
+        const bool free_var = op.has("free") && op["free"].i() == 1;
+        var v = free_var ? n.ov.new_var(vals, false) : n.ov.new_var(vals);
+        if (free_var)
+            n.ov_free.insert(v);
         n.ov_vars.push_back(v);
         n.ov_doms.push_back(ids);
         n.stable = false;
@@ -486,7 +492,7 @@ static bool exec_op(const vj::val &op)
         std::string al = "[";
         for (size_t i = 0; i < n.values.size(); ++i)
             al += (i ? "," : "") + std::to_string(index(n.ov.allows(v, *n.values[i])));
-        emit("\"e\":\"ov_new_var\",\"vals\":" + s + "],\"allows\":" + al + "],\"ret\":" + std::to_string(v));
+        emit("\"e\":\"ov_new_var\",\"vals\":" + s + "],\"allows\":" + al + "],\"free\":" + (free_var ? "1" : "0") + ",\"ret\":" + std::to_string(v));
     }
     else if (e == "ov_new_eq")
     {
@@ -725,6 +731,8 @@ struct gen
         if (use("ov") && what < 40 && n.ov_vars.size() >= 2 && room())
         {
             int a = rnd((int)n.ov_vars.size()), b = rnd((int)n.ov_vars.size());
+            if (n.ov_free.count(n.ov_vars[a]) || n.ov_free.count(n.ov_vars[b]))
+                return; // equality is defined between variables that take exactly one value
             run("{\"e\":\"ov_new_eq\",\"a\":" + std::to_string(n.ov_vars[a]) + ",\"b\":" + std::to_string(n.ov_vars[b]) + "}");
             add_lit(last_ret());
             return;
@@ -907,7 +915,7 @@ struct gen
                 int sz = 1 + rnd(3);
                 std::vector<long> vals(pool.begin(), pool.begin() + sz);
                 std::sort(vals.begin(), vals.end());
-                run("{\"e\":\"ov_new_var\",\"vals\":" + jl(vals) + "}");
+                run("{\"e\":\"ov_new_var\",\"vals\":" + jl(vals) + (coin(30) ? ",\"free\":1}" : "}"));
                 vj::val ln = vj::parse(g_lines.back());
                 for (size_t j = 0; j < ln["allows"].size(); ++j)
                     add_lit(ln["allows"][j].i());
